@@ -120,6 +120,19 @@ impl Shape {
         let (mut wa, mut wb) = if self.0 != Which::Titles && cx.rng.chance(1, 3) { (cx.rng.range(1, 3), cx.rng.range(1, 3)) } else { (1, 1) };
         let (mut wide_l, mut wide_r): (String, String) = ((0..wa).map(|_| S1).collect(), (0..wb).map(|_| S2).collect());
         let mut st = St::build(lang, &recs, limit, (&wide_l, &wide_r));
+        if cx.rng.chance(1, 6) && !crowd {
+            // the store had another life before: other records, a search, then emptied and filled with the judged records
+            st.store.clear();
+            for k in 0..cx.rng.range(1, 8) {
+                st.add(&(9000 + k, shape_title(&mut cx.rng, lang, &corpus), 1));
+            }
+            let _ = st.search(recs.get(0).map(|r| r.1.as_str()).unwrap_or("a"));
+            st.store.clear();
+            for r in &recs {
+                st.add(r);
+            }
+            cx.count("stores cleared and refilled before a search");
+        }
         if wa != wb {
             cx.count("stores with opening and closing markers of different lengths");
         }
@@ -162,6 +175,20 @@ impl Shape {
                 q
             };
             prev_q = Some(q.clone());
+            if qk == 6 && !crowd && cx.rng.chance(1, 2) {
+                // the stores are emptied and filled again with the same records: markers, limit and language stay
+                st.store.clear();
+                for r in &recs {
+                    st.add(r);
+                }
+                if let Some(m) = st_m.as_mut() {
+                    m.store.clear();
+                    for r in &recs {
+                        m.add(r);
+                    }
+                }
+                cx.count("stores cleared and refilled before a search");
+            }
             cx.ctx(format!("lang={} records={} limit={} q={:?} markers=({:?},{:?})", lang, recs.len(), limit, q, ml, mr));
             let hits = st.search(&q);
             let hits: Hits = if wa == 1 && wb == 1 { hits } else { hits.into_iter().map(|(id, t)| (id, t.replace(&wide_l, &S1.to_string()).replace(&wide_r, &S2.to_string()))).collect() };
@@ -732,9 +759,9 @@ impl Prop for Shape {
     }
     fn floors(&self) -> Vec<(&'static str, u64, u64)> {
         match self.0 {
-            Which::Titles => vec![("hit with span", 2000, 20000), ("hit whose title needed composition", 50, 500), ("hit with expanding letter", 50, 500), ("hit whose title has NUL", 30, 300), ("hit whose title contains marker text", 50, 500), ("bridge searches with hits", 200, 2000), ("empty-query searches", 100, 1000), ("stores of 70-150 records with one very long title", 100, 5000)],
-            Which::Related => vec![("hit with fuzzy span", 200, 2000), ("hit with joined-record spans", 20, 200), ("exact-prefix case", 2000, 20000), ("exact-prefix ending inside an expanded letter", 5, 50), ("corpus-store searches", 300, 8000), ("corpus-store searches with more than 8 query words", 50, 1200), ("big-catalogue searches", 100, 1000), ("session searches on one store", 600000, 4000000), ("session hits judged", 60000, 400000)],
-            Which::Markup => vec![("hit with 2+ spans", 500, 5000), ("joined-record split (more spans than query words)", 20, 200), ("hit of separator-only query", 200, 2000), ("span in title with padding", 30, 300), ("joined-with-typos hits with 2+ spans and typos", 2000, 100000), ("stores with opening and closing markers of different lengths", 1000, 10000)],
+            Which::Titles => vec![("hit with span", 2000, 20000), ("hit whose title needed composition", 50, 500), ("hit with expanding letter", 50, 500), ("hit whose title has NUL", 30, 300), ("hit whose title contains marker text", 50, 500), ("bridge searches with hits", 200, 2000), ("empty-query searches", 100, 1000), ("stores cleared and refilled before a search", 1000, 10000), ("stores of 70-150 records with one very long title", 100, 5000)],
+            Which::Related => vec![("hit with fuzzy span", 200, 2000), ("hit with joined-record spans", 20, 200), ("exact-prefix case", 2000, 20000), ("exact-prefix ending inside an expanded letter", 5, 50), ("corpus-store searches", 300, 8000), ("corpus-store searches with more than 8 query words", 50, 1200), ("big-catalogue searches", 100, 1000), ("stores cleared and refilled before a search", 1000, 10000), ("session searches on one store", 600000, 4000000), ("session hits judged", 60000, 400000)],
+            Which::Markup => vec![("hit with 2+ spans", 500, 5000), ("stores cleared and refilled before a search", 1000, 10000), ("joined-record split (more spans than query words)", 20, 200), ("hit of separator-only query", 200, 2000), ("span in title with padding", 30, 300), ("joined-with-typos hits with 2+ spans and typos", 2000, 100000), ("stores with opening and closing markers of different lengths", 1000, 10000)],
         }
     }
     fn run(&self, cx: &mut Cx, stream: &str, idx: u64) {
